@@ -21,11 +21,13 @@ namespace SSVerif.Props.C08Static
 open SSVerif.Generated SSVerif.Generated.Reach SSVerif.Generated.WriteSets SSVerif.Api SSVerif.ApiStatic
 
 set_option maxRecDepth 100000 in
-/-- The generator resolved every entry point it names, every global it saw written is one that `nm` lists as
-writable data (so it is classified by `C08_globals_total`), and every struct of the field inventory is reachable
-from `decoder_s`. -/
+/-- The generator resolved every entry point it names; every public function `decoder_*` / `seg_iter_*` /
+`hyp_iter_*` that decoder.c defines is assigned to a phase (a new API function has to be placed); every global it saw
+written is one that `nm` lists as writable data (so it is classified by `C08_globals_total`); every struct of the
+field inventory is reachable from `decoder_s`. -/
 theorem C08_static_inputs_resolved :
-    missingEntries = [] ∧ unknownWrittenGlobals = [] ∧ tier1Unreachable = [] := by decide +kernel
+    missingEntries = [] ∧ unassignedApiFunctions = [] ∧ unknownWrittenGlobals = [] ∧ tier1Unreachable = [] := by
+  decide +kernel
 
 set_option maxRecDepth 100000 in
 /-- (i) Configuration-constant cells are never written while utterances are decoded or queried: no field that code
